@@ -891,6 +891,81 @@ def r15_16(ctx, rep):
                "class whose canonical name is a state/input/parameter is unseated and that variable deleted" % (norm(b)[:50], sorted(asked) or "nothing", e))
 
 
+@SPEC.rule(
+    "R15.17",
+    "a derivative symbol is the registered one: inside _simplify_once a symbol named `der(...)` is created (`ca.MX.sym`) only to be stored — "
+    "bound to a name that goes into a Variable / a category table — never returned or used on the spot: a second symbol of the same name is a "
+    "free variable of the residual although the unknowns and equations still pair up",
+)
+def r15_17(ctx, rep):
+    R = "R15.17"
+    fn = simplify_fn(ctx, R)
+    site = MODEL + ":Model._simplify_once"
+    parents = {}
+    for p_ in ast.walk(fn):
+        for ch in ast.iter_child_nodes(p_):
+            parents[id(ch)] = p_
+    n = 0
+    for c in ast.walk(fn):
+        if isinstance(c, ast.Call) and (call_name(c) or "").endswith("MX.sym") and c.args and "der(" in norm(c.args[0]):
+            n += 1
+            st = c
+            while id(st) in parents and not isinstance(st, ast.stmt):
+                st = parents[id(st)]
+            registered = False
+            if isinstance(st, ast.Assign) and isinstance(st.targets[0], ast.Name):
+                v = st.targets[0].id
+                host = st
+                while id(host) in parents and not isinstance(host, ast.FunctionDef):
+                    host = parents[id(host)]
+                registered = any(isinstance(u, ast.Call) and (call_name(u) or "").endswith("Variable") and any(is_name(a, v) for a in u.args) for u in ast.walk(host))
+            elif isinstance(st, ast.Assign) and any(isinstance(u, ast.Call) and (call_name(u) or "").endswith("Variable") for u in ast.walk(st.value)):
+                registered = True
+            rep.ob(R, site, "der symbol #%d (line %d) becomes a registered variable" % (n, c.lineno), registered,
+                   "`%s`: the new symbol is not wrapped in a Variable that enters a category — the residual then refers to a symbol no input of the "
+                   "residual function provides" % norm(st)[:80])
+    if n < 1:
+        raise MechanismMissing(R, "no creation of a der(...) symbol found in _simplify_once")
+
+
+@SPEC.rule(
+    "R15.18",
+    "an alias whose equation was dropped is eliminated: in the loop that merges the aliases of a canonical variable the only iteration that "
+    "may end early is the one for an alias handled in an earlier pass (the test on the old alias relation) — any other `continue` keeps a "
+    "variable whose defining equation the equation loop above has already removed",
+)
+def r15_18(ctx, rep):
+    from .c16 import _merge_loops
+    R = "R15.18"
+    outer, inner, cst, ast_ = _merge_loops(ctx, R)
+    site = MODEL + ":Model._simplify_once"
+    parents = {}
+    for p_ in ast.walk(inner):
+        for ch in ast.iter_child_nodes(p_):
+            parents[id(ch)] = p_
+    n = 0
+    for x in ast.walk(inner):
+        if isinstance(x, (ast.Continue, ast.Break)):
+            q, own, tests = x, True, []
+            while id(q) in parents and parents[id(q)] is not inner:
+                pq = parents[id(q)]
+                if isinstance(pq, (ast.For, ast.While)):
+                    own = False
+                if isinstance(pq, ast.If):
+                    tests.append(pq.test)
+                q = pq
+            if not own:
+                continue
+            n += 1
+            from ..pyutil import inlined
+            tests = [inlined(t, inner.body) for t in tests]
+            ok = isinstance(x, ast.Continue) and any("old_alias_relation" in norm(t) or "old_" in norm(t) for t in tests)
+            rep.ob(R, site, "early end of an alias iteration (line %d) is the handled-before case" % x.lineno, ok,
+                   "the iteration is left under `%s`: the alias stays a variable of the model, its equation is gone" % "; ".join(norm(t)[:60] for t in tests))
+    if n < 1:
+        raise MechanismMissing(R, "the skip of aliases handled in an earlier pass was not found in the alias loop")
+
+
 # -- seeded variants ---------------------------------------------------------
 from ._mut import delete_stmt_where, replace_in_func, replace_stmt_where  # noqa: E402
 
